@@ -1,10 +1,7 @@
 import ZipVerif.Lemmas.FaithfulRun
 /-
-What the expected tree `treeOf` contains, read declaratively (for consistent archives on a fresh target):
-  * nothing but what the archive wants (`treeOf_kinds`);
-  * every directory on the way to any entry (`treeOf_dirs`);
-  * at the path of an entry that no later entry targets again: a directory / a file with exactly the
-    entry's bytes, with the entry's recorded mode when it has one (`treeOf_last`).
+What placing one entry and applying one mode do to the tree, read at a path (the facts about the whole
+expected tree `treeOf` are in Lemmas/TreeFactsStream.lean).
 -/
 
 namespace ZipVerif.Model.Extract
@@ -154,137 +151,5 @@ theorem setMode_at (root : Path) (n : Name) (mode : Option Nat) (fs : FS) (nd : 
     cases nd with
     | dir m0 => simp [chmodAt, h, lookup_set_self, withMode]
     | file b m0 => simp [chmodAt, h, lookup_set_self, withMode]
-
-/-! ### the expected tree of a whole archive -/
-
-theorem treeOf_append (c : Cfg) (root : Path) (a b : List EntryView) (fs : FS) :
-    treeOf c root (a ++ b) fs = treeOf c root b (treeOf c root a fs) := by
-  induction a generalizing fs with
-  | nil => rfl
-  | cons e a ih => simp only [List.cons_append, treeOf]; exact ih _
-
-theorem treeOf_inv {c : Cfg} {root : Path} {es : List EntryView} (hpc : PermCfg c)
-    (hDF : ∀ r, DirAt es r → FileAt es r → False) (rest : List EntryView)
-    (hrest : ∀ e ∈ rest, EntryOK c es e) (fs : FS) (hi : Inv c root fs) (hk : Kinds root es fs) :
-    Inv c root (treeOf c root rest fs) ∧ Kinds root es (treeOf c root rest fs) ∧
-      Keeps c fs (treeOf c root rest fs) := by
-  induction rest generalizing fs with
-  | nil => exact ⟨hi, hk, Keeps.refl c fs⟩
-  | cons e rest ih =>
-    have he := hrest e (by simp)
-    obtain ⟨_, hi1, hk1, hg1, hplaced⟩ := placeEntry_eq hi hk hpc hDF he true
-    have hfile : isDirName e.name = false → tailDot e.name = false ∧ e.name ≠ [] := by
-      intro hd
-      obtain ⟨h1, h2⟩ := he.file hd
-      refine ⟨h1, ?_⟩
-      intro e0
-      rw [e0, relComps_nil] at h2; simp [lastNormal] at h2
-    obtain ⟨_, hi2, hk2, hg2⟩ := applyMode_eq (mode := e.mode) hi1 hk1 hplaced he.safe hfile he.perms
-    obtain ⟨hi3, hk3, hkeep3⟩ := ih (fun e' he' => hrest e' (List.mem_cons_of_mem _ he')) _ hi2 hk2
-    exact ⟨hi3, hk3, (hg1.1.trans hg2.1).trans hkeep3⟩
-
-theorem step_nodeIs {c : Cfg} {root : Path} {es : List EntryView} {fs : FS} {e : EntryView}
-    (hi : Inv c root fs) (hk : Kinds root es fs) (hpc : PermCfg c)
-    (hDF : ∀ r, DirAt es r → FileAt es r → False) (he : EntryOK c es e) :
-    ∃ n, (setMode root e.name e.mode (putEntry c root e fs)).lookup (root ++ target e) = some n ∧
-      NodeIs e n := by
-  obtain ⟨_, hholds, _⟩ := putEntry_facts hi hk hpc hDF he
-  have htar : resolveFrom root (relComps e.name) = root ++ target e := by
-    have := resolveFrom_root_safe root he.safe
-    rwa [List.reverse_reverse] at this
-  unfold NodeIs
-  cases hd : isDirName e.name with
-  | true =>
-    rw [hd] at hholds
-    simp only [if_true] at hholds ⊢
-    obtain ⟨m, hm⟩ := hholds
-    rw [← htar] at hm ⊢
-    refine ⟨_, setMode_at root e.name e.mode _ _ hm, ?_⟩
-    cases hmode : e.mode with
-    | none => exact ⟨m, by simp [withMode], by simp⟩
-    | some md => exact ⟨md &&& 0o7777, by simp [withMode], by simp⟩
-  | false =>
-    rw [hd] at hholds
-    simp only [Bool.false_eq_true, if_false] at hholds ⊢
-    obtain ⟨m, hm⟩ := hholds
-    rw [← htar] at hm ⊢
-    refine ⟨_, setMode_at root e.name e.mode _ _ hm, ?_⟩
-    cases hmode : e.mode with
-    | none => exact ⟨m, by simp [withMode], by simp⟩
-    | some md => exact ⟨md &&& 0o7777, by simp [withMode], by simp⟩
-
-/-- A later entry that denotes another path leaves the node alone. -/
-theorem step_untouched {c : Cfg} {root : Path} {es : List EntryView} {fs : FS} {e : EntryView}
-    (hi : Inv c root fs) (hk : Kinds root es fs) (hpc : PermCfg c)
-    (hDF : ∀ r, DirAt es r → FileAt es r → False) (he : EntryOK c es e) {r : Path} {n : Node}
-    (hq : fs.lookup (root ++ r) = some n) (hne : target e ≠ r) :
-    (setMode root e.name e.mode (putEntry c root e fs)).lookup (root ++ r) = some n := by
-  obtain ⟨hbound, _, _⟩ := putEntry_facts hi hk hpc hDF he
-  have htar : resolveFrom root (relComps e.name) = root ++ target e := by
-    have := resolveFrom_root_safe root he.safe
-    rwa [List.reverse_reverse] at this
-  have hne' : root ++ r ≠ root ++ target e := fun h => hne (List.append_cancel_left h).symm
-  rw [setMode_other _ _ _ _ _ (by rw [htar]; exact hne')]
-  exact hbound _ _ hq (fun _ => hne')
-
-theorem treeOf_untouched {c : Cfg} {root : Path} {es : List EntryView} (hpc : PermCfg c)
-    (hDF : ∀ r, DirAt es r → FileAt es r → False) (rest : List EntryView)
-    (hrest : ∀ e ∈ rest, EntryOK c es e) (fs : FS) (hi : Inv c root fs) (hk : Kinds root es fs)
-    {r : Path} {n : Node} (hq : fs.lookup (root ++ r) = some n) (hne : ∀ e ∈ rest, target e ≠ r) :
-    (treeOf c root rest fs).lookup (root ++ r) = some n := by
-  induction rest generalizing fs with
-  | nil => exact hq
-  | cons e rest ih =>
-    have he := hrest e (by simp)
-    obtain ⟨_, hi1, hk1⟩ := seekEntry_eq hi hk hpc hDF he
-    simp only [treeOf]
-    exact ih (fun e' he' => hrest e' (List.mem_cons_of_mem _ he')) _ hi1 hk1
-      (step_untouched hi hk hpc hDF he hq (hne e (by simp)))
-      (fun e' he' => hne e' (List.mem_cons_of_mem _ he'))
-
-/-- **Last one wins.** -/
-theorem treeOf_last {c : Cfg} {root : Path} {es : List EntryView} (hpc : PermCfg c)
-    (hDF : ∀ r, DirAt es r → FileAt es r → False) (pre post : List EntryView) (e : EntryView)
-    (hall : ∀ e' ∈ pre ++ e :: post, EntryOK c es e') (fs : FS) (hi : Inv c root fs)
-    (hk : Kinds root es fs) (hlast : ∀ e' ∈ post, target e' ≠ target e) :
-    ∃ n, (treeOf c root (pre ++ e :: post) fs).lookup (root ++ target e) = some n ∧ NodeIs e n := by
-  rw [treeOf_append]
-  obtain ⟨hi1, hk1, _⟩ := treeOf_inv hpc hDF pre (fun e' he' => hall e' (by simp [he'])) fs hi hk
-  have he := hall e (by simp)
-  obtain ⟨n, hn, hnode⟩ := step_nodeIs hi1 hk1 hpc hDF he
-  obtain ⟨_, hi2, hk2⟩ := seekEntry_eq hi1 hk1 hpc hDF he
-  refine ⟨n, ?_, hnode⟩
-  simp only [treeOf]
-  exact treeOf_untouched hpc hDF post (fun e' he' => hall e' (by simp [he'])) _ hi2 hk2 hn hlast
-
-/-- Every directory on the way to any entry exists at the end. -/
-theorem treeOf_dirs {c : Cfg} {root : Path} {es : List EntryView} (hpc : PermCfg c)
-    (hDF : ∀ r, DirAt es r → FileAt es r → False) (rest : List EntryView)
-    (hrest : ∀ e ∈ rest, EntryOK c es e) (fs : FS) (hi : Inv c root fs) (hk : Kinds root es fs) :
-    ∀ e ∈ rest, ∀ r ∈ dirPaths e, ∃ m, (treeOf c root rest fs).lookup (root ++ r) = some (.dir m) := by
-  induction rest generalizing fs with
-  | nil => intro e he; cases he
-  | cons e0 rest ih =>
-    have he0 := hrest e0 (by simp)
-    obtain ⟨_, hi1, hk1⟩ := seekEntry_eq hi hk hpc hDF he0
-    have hrest' : ∀ e' ∈ rest, EntryOK c es e' := fun e' he' => hrest e' (List.mem_cons_of_mem _ he')
-    intro e he r hr
-    simp only [treeOf]
-    rcases List.mem_cons.mp he with rfl | he
-    · obtain ⟨_, _, hdirs⟩ := putEntry_facts hi hk hpc hDF he0
-      obtain ⟨m, hm⟩ := hdirs r hr
-      obtain ⟨_, hi', hk', _, hplaced⟩ := placeEntry_eq hi hk hpc hDF he0 true
-      have hfile : isDirName e.name = false → tailDot e.name = false ∧ e.name ≠ [] := by
-        intro hd
-        obtain ⟨h1, h2⟩ := he0.file hd
-        refine ⟨h1, ?_⟩
-        intro e0'
-        rw [e0', relComps_nil] at h2; simp [lastNormal] at h2
-      obtain ⟨_, _, _, hg2⟩ := applyMode_eq (mode := e.mode) hi' hk' hplaced he0.safe hfile he0.perms
-      obtain ⟨m1, hm1, _⟩ := hg2.1 _ m hm
-      obtain ⟨_, _, hkeep⟩ := treeOf_inv hpc hDF rest hrest' _ hi1 hk1
-      obtain ⟨m2, hm2, _⟩ := hkeep _ m1 hm1
-      exact ⟨m2, hm2⟩
-    · exact ih hrest' _ hi1 hk1 e he r hr
 
 end ZipVerif.Model.Extract
